@@ -391,9 +391,120 @@ def r113(ctx):
     c09.r91(px, moves)
 
 
+def _engine_level(fl, e, at, depth=0):
+    """-1 / 0 when e resolves to engines[-1][0] ([0-] level) / engines[0][0] ([0+] level)."""
+    if depth > 6:
+        return None
+    if isinstance(e, ast.Subscript):
+        t = ast.unparse(e).replace(" ", "")
+        if t == "engines[-1][0]":
+            return -1
+        if t == "engines[0][0]":
+            return 0
+    for kind, node, sat, extra in fl.sources(e, at):
+        if kind == "expr" and node is not e and isinstance(node, ast.AST):
+            r = _engine_level(fl, node, sat, depth + 1)
+            if r is not None:
+                return r
+        if kind in ("param", "free"):
+            t = str(extra).replace(" ", "")
+            if t == "engines[-1][0]":
+                return -1
+            if t == "engines[0][0]":
+                return 0
+    return None
+
+
+def _beta_levels(fl, e, at, depth=0):
+    """Levels of the engines whose .beta an expression contains (through local aliases)."""
+    out = set()
+    if depth > 4:
+        return out
+    for x in ast.walk(e):
+        if isinstance(x, ast.Attribute) and x.attr == "beta":
+            lv = _engine_level(fl, x.value, at)
+            out.add(lv if lv is not None else "?")
+        elif isinstance(x, ast.Name):
+            for kind, node, sat, extra in fl.sources(x, at):
+                if kind == "expr" and isinstance(node, ast.Attribute) and node.attr == "beta":
+                    lv = _engine_level(fl, node.value, sat)
+                    out.add(lv if lv is not None else "?")
+                elif kind.startswith("sub:") and str(extra) == ".beta" and hasattr(node, "value") and isinstance(node.value, ast.AST):
+                    lv = _engine_level(fl, node.value, node.at)
+                    out.add(lv if lv is not None else "?")
+                elif kind in ("param", "free") and str(extra).replace(" ", "").endswith(".beta"):
+                    t = str(extra).replace(" ", "")[: -len(".beta")]
+                    out.add(-1 if t == "engines[-1][0]" else 0 if t == "engines[0][0]" else "?")
+    return out
+
+
+def r116(ctx):
+    """Shape of the QuanTIS acceptance rule: pacc = min(1, exp(<[0-] term> - <[0+] term>)), the
+    move is rejected exactly on the failing side of `rand <= pacc` (unless accept_all), and rand
+    is a draw from the job stream."""
+    rid = "R-11.6"
+    f = ctx.tree.func(TIS, "quantis_swap_zero")
+    fl = flow_of(f)
+    cfg = fl.cfg
+    pdefs = [st for st in walk_local(f) if isinstance(st, ast.Assign) and isinstance(st.targets[0], ast.Name) and st.targets[0].id == "pacc"]
+    if len(pdefs) != 1:
+        raise AnalysisError("R-11.6: exactly one definition of pacc expected in quantis_swap_zero")
+    st = pdefs[0]
+    v = st.value
+    okshape = False
+    why = "not min(1, exp(...))"
+    if isinstance(v, ast.Call) and last_name(v) == "min" and len(v.args) == 2:
+        one = [a for a in v.args if isinstance(a, ast.Constant) and a.value == 1]
+        ex = [a for a in v.args if isinstance(a, ast.Call) and last_name(a) == "exp" and len(a.args) == 1]
+        if one and ex:
+            arg = ex[0].args[0]
+            if isinstance(arg, ast.BinOp) and isinstance(arg.op, ast.Sub):
+                at = cfg.node_of(st)
+                if _beta_levels(fl, arg.left, at) == {-1} and _beta_levels(fl, arg.right, at) == {0}:
+                    okshape = True
+                else:
+                    why = f"exponent `{short(arg, 60)}` is not <[0-] term with engine0.beta> - <[0+] term with engine1.beta>"
+            else:
+                why = f"exponent `{short(arg, 60)}` is not a difference of the two levels' terms"
+    if okshape:
+        ctx.ok(rid, st, "pacc = min(1, exp(beta0*dV0 - beta1*dV1))")
+    else:
+        ctx.bad(rid, st, f"the QuanTIS acceptance probability is not min(1, exp(beta0*dV0 - beta1*dV1)): {why}", construct="pacc = " + short(v, 70))
+    # rejection on the failing side of rand <= pacc
+    rets = [r for r in walk_local(f) if isinstance(r, ast.Return) and isinstance(r.value, ast.Tuple) and isinstance(r.value.elts[0], ast.Constant) and r.value.elts[0].value is False]
+    qea = None
+    for r in rets:
+        g = cfg.guards(cfg.node_of(r))
+        for e, t, bn in g:
+            if isinstance(e, ast.Compare) and "pacc" in ast.unparse(e):
+                qea = (r, e, t)
+    if qea is None:
+        ctx.bad(rid, st, "no rejection of quantis_swap_zero depends on a comparison with pacc: the energy rule is not applied", construct="pacc unused for rejection")
+    else:
+        r, e, t = qea
+        txt = ast.unparse(e).replace(" ", "")
+        accept_when_true = txt in ("rand<=pacc", "pacc>=rand")
+        reject_when_true = txt in ("rand>pacc", "pacc<rand")
+        if (accept_when_true and t is False) or (reject_when_true and t is True):
+            ctx.ok(rid, e, "rejected exactly when the drawn number exceeds pacc (accepted when it is at most pacc)")
+        else:
+            ctx.bad(rid, e, f"the zero swap is rejected on the {'true' if t else 'false'} side of `{short(e, 30)}`: not 'accept exactly when the drawn number is at most pacc'", construct="acceptance test " + short(e, 30))
+        rn = [x for x in ast.walk(e) if isinstance(x, ast.Name) and x.id != "pacc"]
+        okd = False
+        for x in rn:
+            for kind, node, at, extra in fl.sources(x, cfg.node_of(r)):
+                if kind == "expr" and isinstance(node, ast.Call) and isinstance(node.func, ast.Attribute) and node.func.attr == "random" and "rgen" in ast.unparse(node.func.value):
+                    okd = True
+        if okd:
+            ctx.ok(rid, e, "the number compared with pacc is one draw rgen.random() of the job stream")
+        else:
+            ctx.bad(rid, e, "the number compared with pacc is not a uniform draw from the job's stream", construct="acceptance draw")
+
+
 def run(ctx):
     ctx.rule("R-11.4", "QuanTIS acceptance: each energy difference is weighted with the beta of the engine of its own level", floor=2)
     ctx.rule("R-11.5", "the engines' velocity-reversal codecs negate exactly the velocities (shared with C19 R-19.5): time reversal used by the zero swap is an involution", floor=5)
+    ctx.rule("R-11.6", "shape of the QuanTIS rule: pacc = min(1, exp(beta0*dV0 - beta1*dV1)); rejected exactly when the job-stream draw exceeds pacc", floor=3)
     ctx.rule("R-11.1", "lambda_-1 early rejection precedes any engine call; quantis + lambda_-1 excluded by configuration", floor=3)
     ctx.rule("R-11.2", "the crossing frames are taken from the right ends of the old paths, as copies, on the right side of the propagated segments", floor=5)
     ctx.rule("R-11.3", "zero swap only when the partner is idle; flag <=> status in both swap functions (shared rules)", floor=10)
@@ -401,12 +512,18 @@ def run(ctx):
     ctx.attempt(r112, ctx)
     ctx.attempt(r113, ctx)
     ctx.attempt(r114, ctx)
+    ctx.attempt(r116, ctx)
     from . import c19
     from .shared import RuleProxy
     ctx.attempt(c19.r195, RuleProxy(ctx, "R-11.5", " (a zero swap re-uses stored velocities in the opposite time direction: swapping twice would not restore the order-parameter sequence)"))
 
 
 VARIANTS = [
+    B("c11-quantis-exponent-sum", TIS, "    pacc = min(1.0, np.exp(deltaV0 * engine0.beta - deltaV1 * engine1.beta))", "    pacc = min(1.0, np.exp(deltaV0 * engine0.beta + deltaV1 * engine1.beta))", "R-11.6", control=True),
+    B("c11-quantis-max", TIS, "    pacc = min(1.0, np.exp(deltaV0 * engine0.beta - deltaV1 * engine1.beta))", "    pacc = max(1.0, np.exp(deltaV0 * engine0.beta - deltaV1 * engine1.beta))", "R-11.6"),
+    B("c11-quantis-terms-exchanged", TIS, "    pacc = min(1.0, np.exp(deltaV0 * engine0.beta - deltaV1 * engine1.beta))", "    pacc = min(1.0, np.exp(deltaV1 * engine1.beta - deltaV0 * engine0.beta))", "R-11.6"),
+    B("c11-quantis-test-inverted", TIS, "    elif rand <= pacc:", "    elif rand >= pacc:", "R-11.6"),
+    K("c11-keep-quantis-test-flipped", TIS, "    elif rand <= pacc:", "    elif pacc >= rand:"),
     B("c11-ase-reverse-momenta-mixup", ASE, "        vel = atoms.get_velocities()\n        atoms.set_velocities(-vel)\n        write(outfile, atoms)", "        atoms.set_momenta(-atoms.get_velocities())\n        write(outfile, atoms)", "R-11.5", control=True, why="seeded C11_c"),
     B("c11-early-reject-after-propagate", TIS, '    # if lambda_minus_one, reject early if path_old0\n    if set(ens_set0["start_cond"]) == set(["L", "R"]):\n        if path_old0.check_interfaces(ens_set0["interfaces"])[1] == "L":\n            return False, [path_old0, path_old1], "0-L"\n', "", "R-11.1", control=True,
       also=[(TIS, '    path0 = path_tmp.empty_path(maxlen=maxlen0)\n    for phasepoint in reversed(path_tmp.phasepoints):', '    if set(ens_set0["start_cond"]) == set(["L", "R"]):\n        if path_old0.check_interfaces(ens_set0["interfaces"])[1] == "L":\n            return False, [path_old0, path_old1], "0-L"\n    path0 = path_tmp.empty_path(maxlen=maxlen0)\n    for phasepoint in reversed(path_tmp.phasepoints):')]),
